@@ -11,7 +11,7 @@ import common as c
 
 PID = "C20"
 MANIFEST = {
-    "text": "16 Coq theorems over ALL doubles, all library-oracle behaviours meeting stated hypotheses: the display "
+    "text": "18 Coq theorems, 16 over ALL doubles, all library-oracle behaviours meeting stated hypotheses: the display "
             "text matches the numeral grammar (sign, integer digits grouped in threes, fraction | mantissa e exponent | "
             "NaN/Infinity/-Infinity) for every valid double (shape hypotheses on {:.N}/{:.14e}/parse + coarse bounds on "
             "log10/powi; Flocq no-overflow proof); grouping/trimming/separator insertion change no value; integers in "
@@ -27,7 +27,7 @@ MANIFEST = {
             "(shape / correctness hypotheses stated in each theorem) and exact Z implementations when running "
             "(validated by ORACLE streams; log10 by lookup of the real function's values); axioms: none for 13 "
             "theorems, the Flocq/Reals axioms of the allow-list for C20_wellformed_total, "
-            "C20_accuracy_partial_standard and C20_accuracy",
+            "C20_accuracy_partial_standard, C20_accuracy, C20_powi_model_*",
     "design_ref": "DESIGN.md section 6 C20; notes/C20.md",
 }
 
